@@ -222,7 +222,7 @@ func runC11(c *Ctx) {
 			n++
 			c.ob("C11-R6", fnKey(adm)+"#limits-key-"+itoa(n), ins.Pos(), derivesFrom(k, isIP), "the per-client table is accessed with a key that does not derive from getClientIP of this request: clients share (or escape) a bucket")
 		})
-		c.floor("C11-R6", 2)
+		c.floor("C11-R6", 1)
 	}
 
 	// ---- R3 client identity
